@@ -126,7 +126,7 @@ def pass (h : Nat) : List (List Nat) → Pass
         | .higher h' r => .higher h' ((x :: s') :: r)
 
 /-- the restart loop; every restart strictly raises `highest` to an element of some range, so
-`fuel` = total number of elements suffices (`Proofs/FilterInter.lean: firstInterFuel_enough`). -/
+`fuel` = largest element + 1 suffices (`Proofs/FilterInter2.lean: firstInterFuel_complete`). -/
 def firstInterFuel : Nat → Nat → List (List Nat) → Option (Option (Nat × List (List Nat)))
   | 0, _, _ => none
   | fuel+1, h, sets =>
@@ -137,6 +137,8 @@ def firstInterFuel : Nat → Nat → List (List Nat) → Option (Option (Nat × 
 
 def totalLen (sets : List (List Nat)) : Nat := (sets.map List.length).foldr (· + ·) 0
 
+def maxElem (sets : List (List Nat)) : Nat := sets.flatten.foldr max 0
+
 /-- `detail::FirstIntersectionSorted(sets)` (precondition `sets ≠ []`): lowest common element
 and the advanced ranges. -/
 def firstInterSets (sets : List (List Nat)) : Option (Nat × List (List Nat)) :=
@@ -144,7 +146,7 @@ def firstInterSets (sets : List (List Nat)) : Option (Nat × List (List Nat)) :=
   | [] => none
   | [] :: _ => none
   | (x :: s) :: rest =>
-    match firstInterFuel (totalLen sets + 1) x ((x :: s) :: rest) with
+    match firstInterFuel (maxElem sets + 1) x ((x :: s) :: rest) with
     | some r => r
     | none => none
 
